@@ -79,12 +79,15 @@ pub struct ReadCfg {
     pub budget: u64,
     #[serde(default)]
     pub error_at_read: Option<u64>,
+    /// read from this file instead of the in-memory image (C15)
+    #[serde(default)]
+    pub spill_path: Option<String>,
 }
 
 impl ReadCfg {
     pub fn for_cfg(cfg: &ArcCfg) -> ReadCfg {
         let keys = if cfg.enc() { vec![hex::encode(crate::model::key_bytes(cfg.key_seed, cfg.reader))] } else { vec![] };
-        ReadCfg { keys, sched: Sched::Full, budget: u64::MAX / 2, error_at_read: None }
+        ReadCfg { keys, sched: Sched::Full, budget: u64::MAX / 2, error_at_read: None, spill_path: None }
     }
     pub fn key_bytes(&self) -> Vec<[u8; 32]> {
         self.keys
@@ -196,8 +199,16 @@ pub trait Sut {
     fn read(&self, image: Rc<Vec<u8>>, rcfg: &ReadCfg, ops: &[ROp]) -> ReadOut;
     /// repair into an archive written with `out_layers` (no encryption on output
     /// unless out_cfg has recipients), through a sink with `out_sched`
-    fn repair(&self, image: Rc<Vec<u8>>, rcfg: &ReadCfg, auth: bool, out_cfg: &ArcCfg, out_sched: &Sched) -> RepairOut;
-    fn linear(&self, image: Rc<Vec<u8>>, rcfg: &ReadCfg, subset: &[String], sink_sched: &Sched, sink_fail_call: Option<u64>) -> LinearOut;
+    fn repair(&self, image: Rc<Vec<u8>>, rcfg: &ReadCfg, auth: bool, out_cfg: &ArcCfg, out_sched: &Sched) -> RepairOut {
+        self.repair_into(image, rcfg, auth, out_cfg, SimSink::new(out_sched))
+    }
+    fn linear(&self, image: Rc<Vec<u8>>, rcfg: &ReadCfg, subset: &[String], sink_sched: &Sched, sink_fail_call: Option<u64>) -> LinearOut {
+        self.linear_opts(image, rcfg, subset, sink_sched, sink_fail_call, true)
+    }
+    /// `keep` = false: the per-file sinks only count (C15)
+    fn linear_opts(&self, image: Rc<Vec<u8>>, rcfg: &ReadCfg, subset: &[String], sink_sched: &Sched, sink_fail_call: Option<u64>, keep: bool) -> LinearOut;
+    /// repair into a sink supplied by the caller
+    fn repair_into(&self, image: Rc<Vec<u8>>, rcfg: &ReadCfg, auth: bool, out_cfg: &ArcCfg, sink: SimSink) -> RepairOut;
     /// Layer reader stack built the way `mlar info` builds it over a whole archive image:
     /// header parsed, raw layer pinned after it, then `depth` of the enabled layers
     /// (encryption first, then compression).
